@@ -151,6 +151,7 @@ struct W<F: Flavor> {
     msubs: Vec<Option<SubM>>,
     allow_guards: bool,
     trace: Vec<Ev>,
+    ignored_other: u32,
 }
 
 fn pick(ix: u8, live: &[usize]) -> Option<usize> {
@@ -193,6 +194,11 @@ impl<F: Flavor> W<F> {
     fn check(&mut self, cond: bool, props: &[Prop], msg: impl FnOnce() -> String) -> R {
         self.rep.checks += 1;
         if cond {
+            Ok(())
+        } else if self.prop == C19 && !props.contains(&C19) {
+            // the count oracle compares the library with the harness's own list of live handles
+            // and does not depend on the value/notification model: keep going
+            self.ignored_other += 1;
             Ok(())
         } else {
             self.fail(props, msg())
@@ -285,11 +291,11 @@ impl<F: Flavor> W<F> {
                 }
             }
             Wr::Update(d) => {
-                self.value.1 = self.value.1.wrapping_add(d);
+                self.value = crate::val::bump_m(self.value, d);
                 (Ev::Unit, true)
             }
             Wr::UpdateIf(d, n) => {
-                self.value.1 = self.value.1.wrapping_add(d);
+                self.value = crate::val::bump_m(self.value, d);
                 (Ev::Unit, n)
             }
         }
@@ -798,6 +804,7 @@ fn run_flavor<F: Flavor>(case: &ObsCase, prop: Prop) -> R<(CaseReport, OFeat, Ve
         msubs: vec![],
         allow_guards: case.guards,
         trace: vec![],
+        ignored_other: 0,
     };
     let v = OVal::new(case.init.0, case.init.1);
     w.owners.push(Some(Box::new(if case.start_shared { Own::S(F::new_shared(v)) } else { Own::U(F::new_unique(v)) })));
@@ -1042,4 +1049,29 @@ pub fn case(g: &ObsGen) -> BoxedStrategy<ObsCase> {
     (proptest::sample::select(g.flavours.clone()), any::<bool>(), (0u8..3, 0u8..3), 0u32..100, proptest::collection::vec(op(g), 0..=g.max_ops))
         .prop_map(move |(flavour, start_shared, init, gd, ops)| ObsCase { flavour, start_shared, init, guards: gd < gp && flavour == Fl::Sync, ops, strict: false })
         .boxed()
+}
+
+/// Greedy shrinking by deleting operations (for fuzz artifacts).
+pub fn shrink(case: &ObsCase, prop: Prop) -> ObsCase {
+    let fails = |c: &ObsCase| matches!(crate::campaign::guarded(c, &|c: &ObsCase| run(c, prop)), Err(Stop::Violation(_)));
+    let mut cur = case.clone();
+    if !fails(&cur) {
+        return cur;
+    }
+    let mut progress = true;
+    while progress {
+        progress = false;
+        let mut i = 0;
+        while i < cur.ops.len() {
+            let mut c = cur.clone();
+            c.ops.remove(i);
+            if fails(&c) {
+                cur = c;
+                progress = true;
+            } else {
+                i += 1;
+            }
+        }
+    }
+    cur
 }
